@@ -705,6 +705,25 @@ func (st *tmplState) callFunc(dot tv, n parse.Node, name string, args []parse.No
 		}
 		return tv{out, types.Typ[types.String]}
 	}
+	if name == "printf" {
+		if len(vals) == 0 {
+			st.fail(n, "printf needs a format")
+		}
+		format, ok := st.indirectIface(vals[0]).v.(string)
+		if !ok {
+			st.fail(n, "printf with a non-constant format")
+		}
+		var ops Slice
+		for _, v := range vals[1:] {
+			x := st.indirectIface(v)
+			ops = append(ops, Iface{t: x.t, v: x.v})
+		}
+		r := st.in.sprintf(st.fr, format, ops)
+		if ss, ok := r.(*SymStr); ok && ss.opaque {
+			st.fail(n, "printf %q over operands outside the modelled shapes", format)
+		}
+		return tv{r, types.Typ[types.String]}
+	}
 	st.fail(n, "function %s", name)
 	return tv{}
 }
